@@ -122,6 +122,24 @@ fn line(t: &mut Tape) -> String {
     t.pick(&["Joe Example <joe@example.com>", "a b c", "Ubuntu 20.04 LTS", "Thu, 23 Apr 2020 17:19:19 UTC", "any", "x: y", "é ü", "https://example.com/x", "a, b <c@d>", "#hash inside", "-dash"]).to_string()
 }
 
+/// Lay out a whitespace-separated list: single blanks mostly, sometimes several blanks, a tab, or a fold onto a
+/// continuation line (all of them are "whitespace" to a reader of such a list).
+fn join_ws(t: &mut Tape, items: &[String]) -> Vec<String> {
+    let mut lines = vec![String::new()];
+    for (i, it) in items.iter().enumerate() {
+        if i > 0 {
+            match t.below(12) {
+                0 => lines.push(String::new()),
+                1 => lines.last_mut().unwrap().push_str("  "),
+                2 => lines.last_mut().unwrap().push('\t'),
+                _ => lines.last_mut().unwrap().push(' '),
+            }
+        }
+        lines.last_mut().unwrap().push_str(it);
+    }
+    lines
+}
+
 pub fn gen_value(t: &mut Tape, fam: Fam) -> GenValue {
     let single = |s: String| GenValue { lines: vec![s.clone()], expected: s, unordered_lines: false };
     match fam {
@@ -146,14 +164,14 @@ pub fn gen_value(t: &mut Tape, fam: Fam) -> GenValue {
                 v.push(t.pick(&["http://ports.ubuntu.com/", "https://deb.debian.org/debian", "file:///srv/repo"]).to_string());
             }
             let expected = v.iter().map(|u| url::Url::parse(u).unwrap().to_string()).collect::<Vec<_>>().join(" ");
-            GenValue { lines: vec![v.join(if t.flag() { "  " } else { " " })], expected, unordered_lines: false }
+            GenValue { lines: join_ws(t, &v), expected, unordered_lines: false }
         }
         Words => {
             let mut v = vec![];
             while t.more(v.len(), 1, 4, 1, 2) {
                 v.push(word(t));
             }
-            GenValue { lines: vec![v.join(if t.chance(1, 4) { "  " } else { " " })], expected: v.join(" "), unordered_lines: false }
+            GenValue { lines: join_ws(t, &v), expected: v.join(" "), unordered_lines: false }
         }
         RepoTypes => {
             let v: &[&str] = *t.pick(&[&["deb"][..], &["deb-src"][..], &["deb", "deb-src"][..]]);
@@ -281,6 +299,16 @@ pub fn gen_para(t: &mut Tape, table_name: &'static str, table: &'static [Spec], 
         for i in (from + 1..fields.len()).rev() {
             let j = from + t.below(i - from + 1);
             fields.swap(i, j);
+        }
+    }
+    if layout {
+        // a whitespace-only continuation line inside a list-of-lines value: the strict reader accepts it and shows the
+        // value without it; it is not an entry of the list
+        for f in fields.iter_mut() {
+            if matches!(f.spec.fam, Lines | Env | Patterns) && f.value.lines.len() > 1 && t.chance(1, 6) {
+                let at = t.range(1, f.value.lines.len());
+                f.value.lines.insert(at, String::new());
+            }
         }
     }
     let mut para = Para::default();
